@@ -305,6 +305,7 @@ Section Coherence.
     - (* LiveWrite *) discriminate.
     - (* LiveVarWrite *) discriminate.
     - (* Invalidate *) injection Hm as <- <- <-. exact Hq.
+    - (* ReadOnly *) injection Hm as <- <- <-. exact Hq.
   Qed.
 
   (* ================================================================== F. coherence of the cache *)
@@ -544,6 +545,38 @@ Section Coherence.
     destruct (run_app pre st (MutateArg s n r x :: post)) as [E1 E2].
     destruct (run_app pre st post) as [F1 _].
     rewrite E1, E2, F1. cbn. destruct (run mt dflt (fst (run mt dflt st pre)) post). split; reflexivity.
+  Qed.
+
+  (* ================================================================== K. the other read-only calls *)
+  (* any operation that is a no-op of [step] in every state can be dropped from a history: same final state, same
+     observations of the others *)
+  Lemma history_noop o st pre post :
+    (forall st', step mt dflt st' o = (st', ODone)) ->
+    fst (run mt dflt st (pre ++ o :: post)%list) = fst (run mt dflt st (pre ++ post)%list) /\
+    snd (run mt dflt st (pre ++ o :: post)%list)
+    = (snd (run mt dflt st pre) ++ ODone :: snd (run mt dflt (fst (run mt dflt st pre)) post))%list.
+  Proof.
+    intros Hn.
+    destruct (run_app pre st (o :: post)) as [E1 E2].
+    destruct (run_app pre st post) as [F1 _].
+    rewrite E1, E2, F1. cbn [run]. rewrite Hn. destruct (run mt dflt (fst (run mt dflt st pre)) post). split; reflexivity.
+  Qed.
+
+  Lemma doc_after_noop o pre post : (forall d, fst (fst (mutate d o)) = d) ->
+    forall d, doc_after d (pre ++ o :: post)%list = doc_after d (pre ++ post)%list.
+  Proof.
+    intros Hn. induction pre as [|o' pre IH]; intros d; cbn; [rewrite Hn; reflexivity|apply IH].
+  Qed.
+
+  Lemma history_readonly st pre post c d :
+    step mt dflt st (ReadOnly c) = (st, ODone) /\
+    doc_after d (pre ++ ReadOnly c :: post)%list = doc_after d (pre ++ post)%list /\
+    fst (run mt dflt st (pre ++ ReadOnly c :: post)%list) = fst (run mt dflt st (pre ++ post)%list) /\
+    snd (run mt dflt st (pre ++ ReadOnly c :: post)%list)
+    = (snd (run mt dflt st pre) ++ ODone :: snd (run mt dflt (fst (run mt dflt st pre)) post))%list.
+  Proof.
+    split; [reflexivity|]. split; [apply doc_after_noop; reflexivity|].
+    apply history_noop. reflexivity.
   Qed.
 End Coherence.
 
